@@ -12,3 +12,4 @@ CONSTANTS
   Tbc = TRUE
   ViewHist = 2
   EmitAll = TRUE
+  WithKill = TRUE
